@@ -647,9 +647,10 @@ class Plucker(SMUserList):
         l1 = self
         if l1^l2:
             # lines do intersect
+            n = np.cross(l1.w, l2.w)
             return -(np.dot(l1.v, l2.w) * np.eye(3, 3) + \
                   l1.w.reshape((3,1)) @ l2.v.reshape((1,3)) - \
-                  l2.w.reshape((3,1)) @ l1.v.reshape((1,3))) * base.unitvec(np.cross(l1.w, l2.w))
+                  l2.w.reshape((3,1)) @ l1.v.reshape((1,3))) @ n / np.dot(n, n)
         else:
             # lines don't intersect
             return None
